@@ -7,7 +7,7 @@ from harness import core, py2lean, instantiate
 from harness.core import Outcome, f2b, b2f
 
 ID = "C16"
-LEAN_TARGETS = ["BeyondVerif.Props.C16", "BeyondVerif.Props.C16Helpers", "BeyondVerif.Props.C16Seq", "BeyondVerif.Props.C16HelperSrc", "BeyondVerif.Props.C16Lin", "BeyondVerif.Witness.C16"]
+LEAN_TARGETS = ["BeyondVerif.Props.C16", "BeyondVerif.Props.C16Helpers", "BeyondVerif.Props.C16Seq", "BeyondVerif.Props.C16HelperSrc", "BeyondVerif.Props.C16Lin", "BeyondVerif.Props.C16Src", "BeyondVerif.Witness.C16"]
 THEOREMS = [
     "BeyondVerif.C16.cw_zero",
     "BeyondVerif.C16.cw_solves_hill",
@@ -73,6 +73,12 @@ THEOREMS = [
     "BeyondVerif.C16.relAcc_zero",
     "BeyondVerif.C16.relAcc_linearisation",
     "BeyondVerif.C16.hillRhs_position_block",
+    "BeyondVerif.C16.imp_test_from_source",
+    "BeyondVerif.C16.cont_test_from_source",
+    "BeyondVerif.C16.cont_coast_from_source",
+    "BeyondVerif.C16.cont_check_from_source",
+    "BeyondVerif.C16.man_window_from_source",
+    "BeyondVerif.C16.window_independent_of_date_pos",
 ]
 LEVEL_TEXT = ("Lean theorems over R about the evolution and acceleration matrices translated from cw.py on every run: the propagated state has, "
               "component by component, the derivative prescribed by Hill's equations with constant thrust (HasDerivAt, all t, all n != 0), "
@@ -94,6 +100,8 @@ TRUSTED = [
     "harness/py2lean.py: translates the evol_mat / accel_mat literals of ClohessyWiltshire._propagate into Generated/CWMat{F,R}.lean on every run",
     "harness/props/C16.py HelperTr: translates the method bodies of beyond/utils/cwhelper.py into Generated/CWHelper{F,R}.lean on every run (ImpulsiveMan / ContinuousMan constructor semantics quoted from man.py: start = date, stop = start + duration, accel = dv / duration); tied by the correspondence run helper-translated",
     "lean/templates/CW.tpl (hand-written maneuver sequencing cwPropagate, TNW rotation, reference solution hillSol), tied by the correspondence run (cw, cw0 second leg; cwref / cwfix against the independent integration)",
+    "harness/props/C16.py translate_sequencing_source: reads the tests of the maneuver loop of ClohessyWiltshire.propagate (which of man.date / man.start / man.stop is compared, guards `if ...: continue` included), "
+    "the coast target, ContinuousMan.check and the (date, duration, date_pos) -> (start, stop) window of ContinuousMan.__init__ into Generated/CWSeqSrc{F,R}.lean on every run; Props/C16Src.lean proves them equal to what cwPropagate uses",
     "numpy / libm double arithmetic vs R: tolerance 1e-9 relative",
 ]
 ASSUMPTIONS = ["maneuvers are given in the frame of the orbit (frame=None); QSW/TNW-tagged maneuvers belong to C17",
@@ -107,7 +115,7 @@ OPEN = ["uniqueness of the piecewise solution of Hill's equations (so that hillS
         "the unconditional theorem is proved for the sequencing of proposed_fixes/C16-maneuver-superposition.diff (cwPropagateFixed)"]
 RULE = ("correspondence: random (n from radii LEO..GEO, |t| <= 2 periods, relative states up to km and m/s, 0-5 maneuvers, both orientations) through "
         "ClohessyWiltshire._propagate/propagate vs the compiled Lean model; maneuver lists of every shape (overlapping / nested / back-to-back burns, impulses inside and at the ends "
-        "of burns, non-chronological, dated before the orbit), dates before / at / 1 ms beside / inside / after every maneuver and before the orbit's date, second leg from the returned "
+        "of burns, non-chronological, dated before the orbit; burns declared with date_pos start / median / stop, their window computed by the model from (date, duration, date_pos)), dates before / at / 1 ms beside / inside / after every maneuver and before the orbit's date, second leg from the returned "
         "orbit; hillSol and the fixed sequencing vs an independent matrix-exponential integration; CWHelper vs its translation; non-trivial = t != 0; distinct = distinct request line. "
         "oracle: finite-difference Hill residual, composition, impulse jump, TNW permutation, propagate vs the independent integration of Hill's equations with the piecewise-constant sum "
         "of the active thrusts (one leg, second leg forwards and backwards, superposition), discrepancy with the exact relative two-body motion at three separations (exponent), helper outcomes on the real API")
@@ -255,12 +263,136 @@ def translate_helpers():
     return "\n".join(out)
 
 
+MAN_PY = os.path.join(core.REPO, "beyond", "orbits", "man.py")
+DATE_POS = {"start": 0, "median": 1, "stop": 2}
+
+
+def translate_sequencing_source():
+    """What the hand-written sequencing model rests on, read from the AST on every run:
+    * the tests of the maneuver loop of ClohessyWiltshire.propagate — which attribute of the maneuver (`.date`, `.start`, `.stop`) is compared
+      with the requested date and with the orbit's date, including guards of the form `if …: continue` placed before the branches —
+      as `impActiveSrc tm t0 t`, `contActiveSrc ts te md t0 t` (md = ContinuousMan.date, the constructor's reference date);
+    * the target of the coast leg before a burn, `contCoastSrc ts te md t0 tc` (tc = date of the running state `orb`);
+    * `ContinuousMan.check` as `contCheckSrc ts te t`;
+    * the burn window of `ContinuousMan.__init__` from (date, duration, date_pos) as `manStartSrc pos date duration`, `manStopSrc …`
+      (pos: 0 start, 1 median, 2 stop).
+    Props/C16Src.lean proves that these are the conditions / window the model `cwPropagate` uses."""
+    U = py2lean.Untranslatable
+    tree = ast.parse(open(CW_PY).read())
+    fn = py2lean.find_function(tree, "ClohessyWiltshire.propagate")
+    loop = next((x for x in fn.body if isinstance(x, ast.For)), None)
+    if loop is None or ast.unparse(loop.iter) != "self.orbit.maneuvers" or not isinstance(loop.target, ast.Name):
+        raise U("propagate: maneuver loop not found")
+    mv = loop.target.id
+
+    def tr(kind):
+        c = {"date": "t", "self.orbit.date": "t0", "orb.date": "tc", f"{mv}.start": "ts", f"{mv}.stop": "te",
+             f"{mv}.date": "tm" if kind == "imp" else "md"}
+        return py2lean.Tr(consts=c, funcs={"max": "maxSrc", "min": "minSrc"})
+    guards = []
+    found = {}
+    for st in loop.body:
+        if isinstance(st, ast.If) and len(st.body) == 1 and isinstance(st.body[0], ast.Continue) and not st.orelse:
+            guards.append(st.test)
+            continue
+        node = st
+        while isinstance(node, ast.If):
+            vals = node.test.values if isinstance(node.test, ast.BoolOp) and isinstance(node.test.op, ast.And) else [node.test]
+            v0 = vals[0]
+            if not (isinstance(v0, ast.Call) and ast.unparse(v0.func) == "isinstance" and ast.unparse(v0.args[0]) == mv):
+                raise U("propagate: branch test does not start with isinstance(man, …): " + ast.unparse(node.test)[:60])
+            cls = ast.unparse(v0.args[1])
+            kind = {"ImpulsiveMan": "imp", "ContinuousMan": "cont"}.get(cls)
+            if kind is None or kind in found:
+                raise U("propagate: unexpected maneuver branch " + cls)
+            t = tr(kind)
+            parts = [f"(¬ {t.expr(g)})" for g in guards] + [t.expr(v) for v in vals[1:]]
+            found[kind] = ("(" + " ∧ ".join(parts) + ")" if parts else "True", node.body)
+            node = node.orelse[0] if len(node.orelse) == 1 else None
+        if node is not None and not isinstance(st, ast.If):
+            raise U("propagate: unexpected statement in the maneuver loop: " + ast.unparse(st)[:60])
+    if set(found) != {"imp", "cont"}:
+        raise U("propagate: impulsive / continuous branches not found")
+    first = found["cont"][1][0]
+    if not (isinstance(first, ast.Assign) and isinstance(first.value, ast.Call) and ast.unparse(first.value.func) == "self._propagate"
+            and len(first.value.args) == 2):
+        raise U("propagate: coast leg of the continuous branch not found")
+    coast = tr("cont").expr(first.value.args[0])
+    # ContinuousMan.check and the window
+    mtree = ast.parse(open(MAN_PY).read())
+    chk = py2lean.find_function(mtree, "ContinuousMan.check")
+    body = [x for x in chk.body if not (isinstance(x, ast.Expr) and isinstance(x.value, ast.Constant))]
+    if len(body) != 1 or not isinstance(body[0], ast.Return):
+        raise U("ContinuousMan.check: not a single return")
+    check = py2lean.Tr(consts={"self.start": "ts", "self.stop": "te", "date": "t"}).expr(body[0].value)
+    init = py2lean.find_function(mtree, "ContinuousMan.__init__")
+    wt = py2lean.Tr(consts={"self.start": "start"})
+    chain = next((x for x in init.body if isinstance(x, ast.If) and "self.date_pos ==" in ast.unparse(x.test)), None)
+    if chain is None:
+        raise U("ContinuousMan.__init__: date_pos chain not found")
+    cases, node, seen = [], chain, set()
+    while True:
+        if not (isinstance(node.test, ast.Compare) and ast.unparse(node.test.left) == "self.date_pos" and isinstance(node.test.ops[0], ast.Eq)
+                and isinstance(node.test.comparators[0], ast.Constant) and node.test.comparators[0].value in DATE_POS):
+            raise U("ContinuousMan.__init__: date_pos test " + ast.unparse(node.test))
+        name = node.test.comparators[0].value
+
+        def start_of(stmts):
+            if len(stmts) != 1 or not isinstance(stmts[0], ast.Assign) or ast.unparse(stmts[0].targets[0]) != "self.start":
+                raise U("ContinuousMan.__init__: date_pos branch does not assign self.start")
+            return wt.expr(stmts[0].value)
+        cases.append((DATE_POS[name], start_of(node.body)))
+        seen.add(name)
+        if len(node.orelse) == 1 and isinstance(node.orelse[0], ast.If):
+            node = node.orelse[0]
+            continue
+        rest = [k for k in DATE_POS if k not in seen]
+        if len(rest) != 1:
+            raise U("ContinuousMan.__init__: date_pos chain does not cover start / median / stop")
+        default = start_of(node.orelse)
+        break
+    stop = next((x for x in init.body if isinstance(x, ast.Assign) and ast.unparse(x.targets[0]) == "self.stop"), None)
+    if stop is None:
+        raise U("ContinuousMan.__init__: self.stop not assigned")
+    start_txt = " else ".join(f"if pos = {c} then {e}" for c, e in cases) + f" else {default}"
+    return f"""/-- Python `max(a, b)` / `min(a, b)` -/
+def maxSrc (a b : R) : R := if a ≥ b then a else b
+def minSrc (a b : R) : R := if a ≤ b then a else b
+
+/-- test of the ImpulsiveMan branch of the loop of `ClohessyWiltshire.propagate` (guards `if …: continue` included) -/
+def impActiveSrc (tm t0 t : R) : Prop :=
+  {found['imp'][0]}
+
+/-- test of the ContinuousMan branch; `md` is `man.date`, the reference date given to the constructor -/
+def contActiveSrc (ts te md t0 t : R) : Prop :=
+  {found['cont'][0]}
+
+/-- target of the coast leg that precedes the thrust leg; `tc` is the date of the running state -/
+def contCoastSrc (ts te md t0 tc : R) : R :=
+  {coast}
+
+/-- `ContinuousMan.check` -/
+def contCheckSrc (ts te t : R) : Prop :=
+  {check}
+
+/-- `ContinuousMan.__init__`: `self.start` from (date, duration, date_pos); pos: 0 start, 1 median, 2 stop -/
+def manStartSrc (pos : Nat) (date duration : R) : R :=
+  {start_txt}
+
+/-- `self.stop` -/
+def manStopSrc (pos : Nat) (date duration : R) : R :=
+  let start := manStartSrc pos date duration
+  {wt.expr(stop.value)}
+"""
+
+
 def extract(ctx):
     body = py2lean.translate_slice(CW_PY, "ClohessyWiltshire._propagate", ["n", "t"], ["evol_mat", "accel_mat"], "cwMats",
                                    stop_before=lambda s: isinstance(s, ast.If) and "orientation" in ast.dump(s.test))
     ch = py2lean.instantiate(core.LEAN, "CWMat", body, "beyond/propagators/cw.py")
     ch += instantiate.main()
     ch += py2lean.instantiate(core.LEAN, "CWHelper", translate_helpers(), "beyond/utils/cwhelper.py", imports=["Model.CW"])
+    ch += py2lean.instantiate(core.LEAN, "CWSeqSrc", translate_sequencing_source(), "beyond/propagators/cw.py, beyond/orbits/man.py")
     return ch
 
 
@@ -281,7 +413,9 @@ def make(ori, sma, x, mans=(), t0=0.0):
         if m[0] == "i":
             ms.append(ImpulsiveMan(d0 + timedelta(seconds=m[1]), m[2]))
         else:
-            ms.append(ContinuousMan(d0 + timedelta(seconds=m[1]), timedelta(seconds=m[2] - m[1]), accel=m[3]))
+            pos = m[4] if len(m) > 4 else "start"
+            ref = {"start": m[1], "median": (m[1] + m[2]) / 2, "stop": m[2]}[pos]
+            ms.append(ContinuousMan(d0 + timedelta(seconds=ref), timedelta(seconds=m[2] - m[1]), accel=m[3], date_pos=pos))
     orb.maneuvers = ms
     return orb, prop, d0
 
@@ -314,7 +448,7 @@ def gen_mans(rng, period, chrono=True):
         else:
             dur = q(rng.uniform(0.01, 0.3) * period)
             mans.append(("c", tm, q(tm + dur), [rng.uniform(-1e-3, 1e-3) for _ in range(3)]))
-    return mans
+    return with_date_pos(rng, mans)
 
 
 def man_tokens(mans):
@@ -322,8 +456,27 @@ def man_tokens(mans):
     for m in mans:
         if m[0] == "i":
             out += ["i", f2b(m[1])] + [f2b(v) for v in m[2]]
+        elif len(m) > 4:
+            # declared by (reference date, duration, date_pos): the model computes the window as ContinuousMan.__init__ does
+            ref = {"start": m[1], "median": (m[1] + m[2]) / 2, "stop": m[2]}[m[4]]
+            out += ["d", f2b(float(DATE_POS[m[4]])), f2b(ref), f2b(m[2] - m[1])] + [f2b(v) for v in m[3]]
         else:
             out += ["c", f2b(m[1]), f2b(m[2])] + [f2b(v) for v in m[3]]
+    return out
+
+
+def with_date_pos(rng, mans):
+    """declare some burns by their median / stop date (ContinuousMan date_pos). All the dates of such a list are snapped to multiples of
+    0.5 s (dyadic: reference date, duration and window are then exact in doubles and in timedelta), coincidences are preserved"""
+    if not any(m[0] == "c" for m in mans) or rng.random() < 0.4:
+        return mans
+    snap = lambda v: q(v, 0.5)
+    out = []
+    for m in mans:
+        if m[0] == "i":
+            out.append(("i", snap(m[1]), m[2]))
+        else:
+            out.append(("c", snap(m[1]), snap(m[2]), m[3], rng.choice(["start", "median", "stop", "median", "stop"])))
     return out
 
 
@@ -603,16 +756,17 @@ def oracle(ctx, widened):
         ts = q(rng.uniform(0.05, 0.5) * period, 0.5)
         te = q(ts + rng.uniform(0.2, 0.5) * period, 0.5)
         acc = [rng.uniform(-1e-3, 1e-3) for _ in range(3)]
-        orbC, propC, _ = make("QSW", sma, x, [("c", ts, te, acc)])
-        tq = q(rng.uniform(ts + 2, te - 2), 0.5)
+        pos = rng.choice(["start", "median", "stop"])
+        orbC, propC, _ = make("QSW", sma, x, [("c", ts, te, acc, pos)])
+        tq = q(rng.uniform(ts + 2, te - 2), 0.5) if rng.random() < 0.5 else q(rng.uniform(ts + 2, (ts + te) / 2), 0.5)
         sm, s0c, sp = (np.array(orbC.propagate(timedelta(seconds=tq + dd))) for dd in (-h, 0.0, h))
         d = (sp - sm) / (2 * h)
         rhs = np.array(hill_rhs(n, s0c, acc))
-        out.count(key=("hill-thrust", sma, tq), kind="hill-residual-thrust")
+        out.count(key=("hill-thrust", sma, tq), kind="hill-residual-thrust", date_pos=pos)
         sc2 = scale + 1e-3 * tq * tq
         if not np.all(np.abs(d - rhs) <= (1e-5 * sc2 * n + 1e-9) * np.array([1, 1, 1, n, n, n]) * 10 + 1e-8):
             out.fail("hill-residual-thrust", "state during a continuous maneuver violates the forced Hill equations",
-                     {"sma": sma, "t": tq, "x": x, "man": ["c", ts, te, acc]}, observed=list(map(float, d)), expected=list(map(float, rhs)))
+                     {"sma": sma, "t": tq, "x": x, "man": ["c", ts, te, acc, pos]}, observed=list(map(float, d)), expected=list(map(float, rhs)))
     piecewise(out, rng, 600 if (widened or ctx.thorough) else 90)
     second_order(out, rng, 40 if (widened or ctx.thorough) else 6)
     helpers(out, rng, 60 if (widened or ctx.thorough) else 12)
@@ -724,6 +878,9 @@ def shape(mans):
     st = [m[1] for m in mans]
     if st != sorted(st):
         tags.append("nonchrono")
+    pos = sorted({m[4] for m in burns if len(m) > 4 and m[4] != "start"})
+    if pos:
+        tags.append("datepos-" + "-".join(pos))
     return "+".join(tags) or "plain"
 
 
@@ -782,7 +939,7 @@ def gen_sequence(rng, period):
             mans.append(("i", 0.0, dv()))
     if rng.random() < 0.25:
         rng.shuffle(mans)
-    return kind, mans
+    return kind, with_date_pos(rng, mans)
 
 
 def interesting_dates(rng, mans, period):
@@ -795,7 +952,9 @@ def interesting_dates(rng, mans, period):
             c += [e, q(e + 0.001), q(e - 0.001)]
             last = max(last, e)
         if m[0] == "c":
-            c.append(q(rng.uniform(m[1], m[2])))
+            mid = q((m[1] + m[2]) / 2)
+            # inside the burn: anywhere, in its first half (before the reference date of a median- / stop-dated burn), exactly at its median
+            c += [q(rng.uniform(m[1], m[2])), q(rng.uniform(m[1], mid)), mid]
     ev = sorted({e for m in mans for e in ((m[1],) if m[0] == "i" else (m[1], m[2]))})
     for a, b in zip(ev[:-1], ev[1:]):
         c.append(q(rng.uniform(a, b)))
@@ -805,7 +964,7 @@ def interesting_dates(rng, mans, period):
 
 def perm_mans(mans):
     p3 = lambda v: [v[1], -v[0], v[2]]
-    return [(m[0], m[1], p3(m[2])) if m[0] == "i" else (m[0], m[1], m[2], p3(m[3])) for m in mans]
+    return [(m[0], m[1], p3(m[2])) if m[0] == "i" else (m[0], m[1], m[2], p3(m[3])) + tuple(m[4:]) for m in mans]
 
 
 def seq_scale(x, mans, t0, t):
